@@ -45,6 +45,7 @@ type Conn struct {
 	SynOpts  []byte
 	LPort    uint16
 	src, dst []byte // peer address, stack address
+	established bool
 }
 
 const PeerPort = 4321
@@ -71,7 +72,12 @@ func (c *Conn) proto() tcpip.NetworkProtocolNumber {
 }
 
 // InjectRaw hands a TCP segment from the peer to the stack.
-func (c *Conn) InjectRaw(t netx.TCPSeg) { c.N.L.Inject(c.proto(), c.wire(t)) }
+func (c *Conn) InjectRaw(t netx.TCPSeg) {
+	if c.EP != nil && c.established {
+		tcp.VerifTouch(c.EP)
+	}
+	c.N.L.Inject(c.proto(), c.wire(t))
+}
 
 // Frames returns the TCP segments emitted since the last call.
 func (c *Conn) Frames() []netx.TCPSeg {
@@ -217,6 +223,7 @@ func Dial(cfg Cfg) (*Conn, error) {
 		time.Sleep(100 * time.Microsecond)
 	}
 	tcp.VerifStopTimers(ep)
+	c.established = true
 	return c, nil
 }
 
@@ -245,6 +252,7 @@ func (c *Conn) Snap() tcp.VerifState { return tcp.VerifSnapshot(c.EP) }
 
 // Write returns the number of bytes accepted or a negative error code (see Model/Tcp.v appWrite).
 func (c *Conn) Write(b []byte) int {
+	tcp.VerifTouch(c.EP)
 	n, _, err := c.EP.Write(tcpip.SlicePayload(append([]byte(nil), b...)), tcpip.WriteOptions{})
 	if err != nil && err != tcpip.ErrWouldBlock {
 		switch err {
@@ -262,6 +270,7 @@ func (c *Conn) Write(b []byte) int {
 
 // Read returns the bytes or a negative error code (see Model/Tcp.v appRead).
 func (c *Conn) Read() ([]byte, int) {
+	tcp.VerifTouch(c.EP)
 	v, _, err := c.EP.Read(nil)
 	if err != nil {
 		switch err {
@@ -279,13 +288,17 @@ func (c *Conn) Read() ([]byte, int) {
 }
 
 func (c *Conn) ShutdownWrite() int {
+	tcp.VerifTouch(c.EP)
 	if err := c.EP.Shutdown(tcpip.ShutdownWrite); err != nil {
 		return -4
 	}
 	return 0
 }
 
-func (c *Conn) FireRTO() bool { return tcp.VerifFireRTO(c.EP) }
+func (c *Conn) FireRTO() bool {
+	tcp.VerifTouch(c.EP)
+	return tcp.VerifFireRTO(c.EP)
+}
 
 // ---------------------------------------------------------------- printing as Coq terms
 
